@@ -16,18 +16,22 @@ pub struct Out {
     pub w: Box<dyn Write>,
     pub n: usize,
     pub ok: usize,
+    pub resets: usize,
     pub samples: Vec<Value>,
     pub distinct: std::collections::BTreeSet<String>,
 }
 impl Out {
     pub fn new(path: &str) -> Out {
         let f = std::fs::File::create(path).unwrap();
-        Out { w: Box::new(std::io::BufWriter::new(f)), n: 0, ok: 0, samples: vec![], distinct: Default::default() }
+        Out { w: Box::new(std::io::BufWriter::new(f)), n: 0, ok: 0, resets: 0, samples: vec![], distinct: Default::default() }
     }
     pub fn emit(&mut self, v: Value, ok: bool, class: String) {
         serde_json::to_writer(&mut self.w, &v).unwrap();
         self.w.write_all(b"\n").unwrap();
         self.n += 1;
+        if v["k"].as_str().map(|k| k.ends_with("reset")).unwrap_or(false) {
+            self.resets += 1;
+        }
         if ok {
             self.ok += 1;
         }
@@ -37,7 +41,7 @@ impl Out {
         self.distinct.insert(class);
     }
     pub fn stats(&self) -> Value {
-        json!({"stats": {"events": self.n, "resets": 1, "ok_calls": self.ok, "classes": self.distinct.len(), "by_ix": {}}, "samples": self.samples})
+        json!({"stats": {"events": self.n, "resets": self.resets.max(1), "ok_calls": self.ok, "classes": self.distinct.len(), "by_ix": {}}, "samples": self.samples})
     }
 }
 
@@ -360,4 +364,133 @@ pub fn deltas(seed: u64, n: usize, out: &mut Out) {
     }
     out.w.flush().unwrap();
     let _ = ni(0);
+}
+
+/// C12 (views): random field values written through the Anchor serializers and read through every
+/// Pinocchio getter; Pinocchio setters vs the Anchor mutators; and the shift-subtract usable-tick lookup.
+pub fn views(seed: u64, n: usize, out: &mut Out) {
+    use anchor_lang::AccountSerialize;
+    use whirlpool::pinocchio::verif_export::state::whirlpool::tick_array::TickArray as _;
+    use whirlpool::pinocchio::verif_export::state::whirlpool::{tick_array as pta, MemoryMappedPosition, MemoryMappedWhirlpool};
+    use whirlpool::state::{Position, PositionRewardInfo, PositionUpdate, Whirlpool, WhirlpoolRewardInfo};
+    quiet_panics();
+    let mut r = ChaCha8Rng::seed_from_u64(seed);
+    let key = |r: &mut ChaCha8Rng| anchor_lang::prelude::Pubkey::new_from_array(r.gen());
+    let wide = |r: &mut ChaCha8Rng| -> u128 {
+        match r.gen_range(0..5) {
+            0 => 0,
+            1 => 1,
+            2 => 1u128 << 127,
+            3 => u128::MAX,
+            _ => r.gen(),
+        }
+    };
+    for i in 0..n {
+        // ---- whirlpool
+        let mut wp = Whirlpool { whirlpools_config: key(&mut r), whirlpool_bump: [r.gen()], tick_spacing: r.gen(), fee_tier_index_seed: r.gen(), fee_rate: r.gen(), protocol_fee_rate: r.gen(), liquidity: wide(&mut r), sqrt_price: wide(&mut r), tick_current_index: r.gen(), protocol_fee_owed_a: r.gen(), protocol_fee_owed_b: r.gen(), token_mint_a: key(&mut r), token_vault_a: key(&mut r), fee_growth_global_a: wide(&mut r), token_mint_b: key(&mut r), token_vault_b: key(&mut r), fee_growth_global_b: wide(&mut r), reward_last_updated_timestamp: r.gen(), reward_infos: [WhirlpoolRewardInfo::default(); 3] };
+        for k in 0..3 {
+            wp.reward_infos[k] = WhirlpoolRewardInfo { mint: key(&mut r), vault: key(&mut r), extension: r.gen(), emissions_per_second_x64: wide(&mut r), growth_global_x64: wide(&mut r) };
+        }
+        let mut bytes: Vec<u8> = vec![];
+        wp.try_serialize(&mut bytes).unwrap();
+        let mut buf = vec![0u64; bytes.len() / 8 + 2];
+        unsafe { std::ptr::copy_nonoverlapping(bytes.as_ptr(), buf.as_mut_ptr() as *mut u8, bytes.len()) };
+        let mm: &mut MemoryMappedWhirlpool = unsafe { &mut *(buf.as_mut_ptr() as *mut MemoryMappedWhirlpool) };
+        let mut bad: Vec<&str> = vec![];
+        let kb = |k: &anchor_lang::prelude::Pubkey| k.to_bytes();
+        if mm.tick_spacing() != wp.tick_spacing { bad.push("tick_spacing") }
+        if mm.liquidity() != wp.liquidity { bad.push("liquidity") }
+        if mm.sqrt_price() != wp.sqrt_price { bad.push("sqrt_price") }
+        if mm.tick_current_index() != wp.tick_current_index { bad.push("tick_current_index") }
+        if *mm.token_mint_a() != kb(&wp.token_mint_a) { bad.push("token_mint_a") }
+        if *mm.token_mint_b() != kb(&wp.token_mint_b) { bad.push("token_mint_b") }
+        if *mm.token_vault_a() != kb(&wp.token_vault_a) { bad.push("token_vault_a") }
+        if *mm.token_vault_b() != kb(&wp.token_vault_b) { bad.push("token_vault_b") }
+        if mm.fee_growth_global_a() != wp.fee_growth_global_a { bad.push("fee_growth_global_a") }
+        if mm.fee_growth_global_b() != wp.fee_growth_global_b { bad.push("fee_growth_global_b") }
+        if mm.reward_last_updated_timestamp() != wp.reward_last_updated_timestamp { bad.push("reward_last_updated_timestamp") }
+        for k in 0..3 {
+            let ri = &mm.reward_infos()[k];
+            if *ri.mint() != kb(&wp.reward_infos[k].mint) || *ri.vault() != kb(&wp.reward_infos[k].vault) || *ri.extension() != wp.reward_infos[k].extension || ri.emissions_per_second_x64() != wp.reward_infos[k].emissions_per_second_x64 || ri.growth_global_x64() != wp.reward_infos[k].growth_global_x64 || ri.initialized() != wp.reward_infos[k].initialized() {
+                bad.push("reward_info");
+            }
+        }
+        // setter
+        let (nl, ng, nts): (u128, [u128; 3], u64) = (wide(&mut r), [wide(&mut r), wide(&mut r), wide(&mut r)], r.gen());
+        mm.update_liquidity_and_reward_growth_global(nl, &ng, nts);
+        let mut infos = wp.reward_infos;
+        for k in 0..3 {
+            infos[k].growth_global_x64 = ng[k];
+        }
+        wp.update_rewards_and_liquidity(infos, nl, nts);
+        let mut bytes2: Vec<u8> = vec![];
+        wp.try_serialize(&mut bytes2).unwrap();
+        let after = unsafe { std::slice::from_raw_parts(buf.as_ptr() as *const u8, bytes2.len()) };
+        out.emit(json!({"k": "view", "kind": "whirlpool", "mismatch": bad, "setterSame": after == &bytes2[..]}), true, "view:wp".into());
+
+        // ---- position
+        let mut pos = Position { whirlpool: key(&mut r), position_mint: key(&mut r), liquidity: wide(&mut r), tick_lower_index: r.gen(), tick_upper_index: r.gen(), fee_growth_checkpoint_a: wide(&mut r), fee_owed_a: r.gen(), fee_growth_checkpoint_b: wide(&mut r), fee_owed_b: r.gen(), reward_infos: [PositionRewardInfo::default(); 3] };
+        for k in 0..3 {
+            pos.reward_infos[k] = PositionRewardInfo { growth_inside_checkpoint: wide(&mut r), amount_owed: r.gen() };
+        }
+        let mut pb: Vec<u8> = vec![];
+        pos.try_serialize(&mut pb).unwrap();
+        pb.resize(216, 0);
+        let mut pbuf = vec![0u64; 216 / 8 + 1];
+        unsafe { std::ptr::copy_nonoverlapping(pb.as_ptr(), pbuf.as_mut_ptr() as *mut u8, pb.len()) };
+        let mp: &mut MemoryMappedPosition = unsafe { &mut *(pbuf.as_mut_ptr() as *mut MemoryMappedPosition) };
+        let mut bad: Vec<&str> = vec![];
+        if *mp.whirlpool() != kb(&pos.whirlpool) { bad.push("whirlpool") }
+        if *mp.position_mint() != kb(&pos.position_mint) { bad.push("position_mint") }
+        if mp.liquidity() != pos.liquidity { bad.push("liquidity") }
+        if mp.tick_lower_index() != pos.tick_lower_index { bad.push("tick_lower_index") }
+        if mp.tick_upper_index() != pos.tick_upper_index { bad.push("tick_upper_index") }
+        if mp.fee_growth_checkpoint_a() != pos.fee_growth_checkpoint_a { bad.push("fee_growth_checkpoint_a") }
+        if mp.fee_growth_checkpoint_b() != pos.fee_growth_checkpoint_b { bad.push("fee_growth_checkpoint_b") }
+        if mp.fee_owed_a() != pos.fee_owed_a { bad.push("fee_owed_a") }
+        if mp.fee_owed_b() != pos.fee_owed_b { bad.push("fee_owed_b") }
+        for k in 0..3 {
+            if mp.reward_infos()[k].growth_inside_checkpoint() != pos.reward_infos[k].growth_inside_checkpoint || mp.reward_infos()[k].amount_owed() != pos.reward_infos[k].amount_owed {
+                bad.push("reward_info");
+            }
+        }
+        let mut upd = PositionUpdate { liquidity: wide(&mut r), fee_growth_checkpoint_a: wide(&mut r), fee_owed_a: r.gen(), fee_growth_checkpoint_b: wide(&mut r), fee_owed_b: r.gen(), reward_infos: [PositionRewardInfo::default(); 3] };
+        for k in 0..3 {
+            upd.reward_infos[k] = PositionRewardInfo { growth_inside_checkpoint: wide(&mut r), amount_owed: r.gen() };
+        }
+        mp.update(&upd);
+        pos.update(&upd);
+        let mut pb2: Vec<u8> = vec![];
+        pos.try_serialize(&mut pb2).unwrap();
+        let after = unsafe { std::slice::from_raw_parts(pbuf.as_ptr() as *const u8, pb2.len()) };
+        out.emit(json!({"k": "view", "kind": "position", "mismatch": bad, "setterSame": after == &pb2[..]}), true, "view:pos".into());
+
+        // ---- usable-tick lookup of the Pinocchio tick arrays (manual shift-subtract division)
+        let spacings = [1u16, 2, 3, 8, 64, 96, 128, 256, 32896, u16::MAX];
+        let sp = spacings[i % spacings.len()];
+        let span = 88 * sp as i32;
+        let start = match r.gen_range(0..4) {
+            0 => 0,
+            1 => (MIN_TICK / span - 1) * span,
+            2 => (MAX_TICK / span) * span,
+            _ => r.gen_range(-400000 / span..=400000 / span) * span,
+        };
+        let mut arr = vec![0u64; (8 + 36 + 113 * 88) / 8 + 2];
+        unsafe { std::ptr::copy_nonoverlapping(start.to_le_bytes().as_ptr(), (arr.as_mut_ptr() as *mut u8).add(8), 4) };
+        let fa: &pta::fixed_tick_array::MemoryMappedFixedTickArray = unsafe { &*(arr.as_ptr() as *const _) };
+        let mut qs = vec![];
+        for _ in 0..24 {
+            let slot = match r.gen_range(0..4) {
+                0 => r.gen_range(-2..3),
+                1 => r.gen_range(85..91),
+                2 => r.gen_range(62..67),
+                _ => r.gen_range(0..88),
+            };
+            let t = start + slot * sp as i32 + if sp > 1 && r.gen_bool(0.3) { r.gen_range(1..sp as i32) } else { 0 };
+            let res = fa.check_is_usable_tick_and_get_offset(t, sp);
+            qs.push(json!([t, res.map(|o| o as i64).unwrap_or(-1)]));
+        }
+        out.emit(json!({"k": "usable", "start": start, "spacing": sp, "q": qs}), true, format!("usable:{sp}"));
+    }
+    out.w.flush().unwrap();
 }
